@@ -218,7 +218,7 @@ let ref_op c : (int * obj) list * (unit -> (string * verdict) list) =
   | "affine_image" | "affine_preimage" ->
       let v = nexti c in let d = nextz c in let e = read_expr_n c in
       if d = Z0 || v >= n || List.length e.lcoefs > n then raise (Skip "ill-formed");
-      [ id, map_op x ((if op = "affine_image" then affine_image else affine_preimage) (nat v) (nat n) e d) (in_loop_flag x) ], none
+      [ id, map_op x ((if op = "affine_image" then j_affine_image else j_affine_preimage) (nat v) (nat n) e d) (in_loop_flag x) ], none
   | "unconstrain" -> let v = nexti c in if v >= n then raise (Skip "ill-formed");
       [ id, map_op x (unconstrain (nat v)) (in_loop_flag x) ], none
   | "add_space_dimensions_and_embed" -> let m = nexti c in [ id, { x with dim = n + m } ], none
@@ -226,7 +226,7 @@ let ref_op c : (int * obj) list * (unit -> (string * verdict) list) =
       [ id, { (map_op x (project_dims (nat n) (nat m)) true) with dim = n + m } ], none
   | "remove_higher_space_dimensions" -> let k = nexti c in if k > n then raise (Skip "ill-formed");
       if k = n then [ id, x ], none
-      else [ id, { (map_op x (remove_higher (nat k) (nat n)) (in_loop_flag x)) with dim = k } ], none
+      else [ id, { (map_op x (j_remove_higher (nat k) (nat n)) (in_loop_flag x)) with dim = k } ], none
   | "remove_space_dimensions" ->
       let k = nexti c in let vs = List.init k (fun _ -> nexti c) in
       if List.exists (fun v -> v >= n) vs then raise (Skip "ill-formed");
@@ -314,6 +314,80 @@ let ref_query c (ans : string list) : (int * obj) list * (string * verdict) list
       cmp "strictly_contains_model" (lazy (Some b)) @ sound "strictly_contains_sound" (lazy (unions_incl nbx (systems y.s) (systems x.s)))
   | _ -> raise (Skip ("query " ^ q))
 
+
+(* ------------------------------------------------------------------------------------------------------------------------
+   Pointset_Powerset<Grid> (cases `case <id> G'): no model run; the geometric predicates and the difference are judged against
+   the verified grid reference: candidate points of a grid come from the verified generators of its congruence system
+   (j_grid_gens), membership of a rational point in a congruence is decided by mem_pcg_b (proved exact), inclusion of one
+   grid in another by j_grid_incl (proved exact).  A `true' of geometrically_covers / geometrically_equals / check_containment
+   is refuted by a point of the target outside every disjunct of the cover; a `false' is refuted when every target disjunct
+   is included in a single cover disjunct. *)
+type gdj = { gempty : bool; gcgs : pcg list }
+let gpool : (int, int * gdj list) Hashtbl.t = Hashtbl.create 8
+let read_pcg c dim = let m = nextz c in let b = nextz c in let a = take_z c dim in { ge = { lcoefs = a; lcst = b }; gm = m }
+let read_pcgs c dim = let k = nexti c in List.init k (fun _ -> read_pcg c dim)
+let parse_gst line =
+  match String.split_on_char '|' line with
+  | [] -> raise (Syntax "empty st")
+  | head :: rest ->
+    let c = { t = split head } in
+    if next c <> "st" then raise (Syntax ("expected st: " ^ line));
+    let id = nexti c in ignore (next c); let dim = nexti c in ignore (next c); ignore (next c); let ok = (next c = "1") in
+    let djs = List.map (fun part -> let c = { t = split part } in
+      let d = nexti c in if d <> dim then raise (Syntax "grid disjunct of another dimension");
+      let e = (next c = "1") in
+      if next c <> "cgs" then raise (Syntax "expected cgs");
+      { gempty = e; gcgs = read_pcgs c dim }) rest in
+    (id, dim, ok, djs)
+let gq n = inject_Z (z_of_int n)
+let gfrac n d = j_qmake (z_of_int n) (match z_of_int d with Zpos p -> p | _ -> XH)
+let rec gpad n l = if n <= 0 then [] else match l with [] -> gq 0 :: gpad (n - 1) [] | x :: r -> x :: gpad (n - 1) r
+let gvadd a b = List.map2 j_qadd a b
+let gvscale k a = List.map (j_qmul k) a
+let grid_samples dim (d : gdj) : q list list =
+  if d.gempty then [] else
+  match timed (fun () -> j_grid_gens (nat dim) d.gcgs) None with
+  | None -> []
+  | Some gens ->
+    let pts = List.filter_map (function QPoint v -> Some (gpad dim v) | _ -> None) gens in
+    let pars = List.filter_map (function QParam v -> Some (gpad dim v) | _ -> None) gens in
+    let lins = List.filter_map (function QLine v -> Some (gpad dim v) | _ -> None) gens in
+    (match pts with
+     | [] -> []
+     | p0 :: _ ->
+       let ks = if List.length pars <= 2 then [ -2; -1; 0; 1; 2; 3 ] else [ -1; 0; 1; 2 ] in
+       let ts = if List.length lins <= 1 then [ gq (-1); gfrac (-1) 2; gq 0; gfrac 1 3; gfrac 1 2; gq 1; gfrac 3 2; gq 2 ]
+                else [ gq 0; gfrac 1 2; gq 1; gfrac (-1) 3 ] in
+       let acc = ref [ p0 ] in
+       List.iter (fun g -> acc := List.concat_map (fun p -> List.map (fun k -> gvadd p (gvscale (gq k) g)) ks) !acc) pars;
+       List.iter (fun g -> acc := List.concat_map (fun p -> List.map (fun t -> gvadd p (gvscale t g)) ts) !acc) lins;
+       !acc)
+let mem_gdj (d : gdj) p = (not d.gempty) && List.for_all (fun g -> mem_pcg_b g p) d.gcgs
+let gcovered (djs : gdj list) p = List.exists (fun d -> mem_gdj d p) djs
+let gstr p = "(" ^ String.concat "," (List.map (fun (x : q) -> let x = qred x in string_of_z x.qnum ^ (if x.qden = XH then "" else "/" ^ string_of_z (Zpos x.qden))) p) ^ ")"
+(* root cause of a known defect: approximate_partition_aux (Pointset_Powerset.cc:141-160) enumerates the residues 0..m-1 of a cover
+   congruence e = 0 (mod m) as INTEGERS; when the target grid is discrete along e but e takes non-integer values on it, those
+   pieces are missing from the `partition'.  Condition checked on the verified generators of the target. *)
+let partition_defect dim (ts : gdj list) (xs : gdj list) =
+  let lin_h (e : lin) v = List.fold_left j_qadd (gq 0) (List.mapi (fun i a -> if i < List.length v then j_qmul (inject_Z a) (List.nth v i) else gq 0) e.lcoefs) in
+  let is_int (x : q) = ((qred x).qden = XH) in
+  List.exists (fun (t : gdj) -> (not t.gempty) &&
+    (match timed (fun () -> j_grid_gens (nat dim) t.gcgs) None with
+     | None -> false
+     | Some gens ->
+       let lins = List.filter_map (function QLine v -> Some (gpad dim v) | _ -> None) gens in
+       let others = List.filter_map (function QPoint v -> Some (true, gpad dim v) | QParam v -> Some (false, gpad dim v) | _ -> None) gens in
+       List.exists (fun (x : gdj) -> List.exists (fun (c : pcg) -> c.gm <> Z0 &&
+         List.for_all (fun l -> qeq_bool (lin_h c.ge l) (gq 0)) lins &&
+         List.exists (fun (isp, v) -> not (is_int (if isp then j_qadd (lin_h c.ge v) (inject_Z c.ge.lcst) else lin_h c.ge v))) others) x.gcgs) xs)) ts
+let ptag dim ts xs = if partition_defect dim ts xs then "[approximate-partition-integer-residues] " else ""
+(* a point of the union [ts] outside the union [xs] *)
+let gwitness dim (ts : gdj list) (xs : gdj list) = List.find_opt (fun p -> not (gcovered xs p)) (List.concat_map (grid_samples dim) ts)
+(* every disjunct of ts included in one disjunct of xs (exact, sufficient for coverage) *)
+let gincl_disjunctwise dim (ts : gdj list) (xs : gdj list) =
+  List.for_all (fun t -> t.gempty || (match timed (fun () -> j_grid_empty (nat dim) t.gcgs) None with Some true -> true | _ -> false)
+    || List.exists (fun x -> (not x.gempty) && (match timed (fun () -> j_grid_incl (nat dim) t.gcgs x.gcgs) None with Some true -> true | _ -> false)) xs) ts
+
 (* ---- copy-on-write handles against the heap model ---- *)
 type hobs = { loc : int; refs_ : int; hcons : con list }
 let parse_cst line dim_of =
@@ -382,12 +456,77 @@ let () =
       let toks, hurried = (match toks with "hurry" :: r -> r, true | _ -> toks, false) in
       hur := (if hurried then always else never);
       if hurried then bump "hurry-steps";
+      if !topo = "G" && (match toks with ("new" | "copy" | "op" | "qry") :: _ -> true | _ -> false) then begin
+        (* ---- a step of a grid-powerset case ---- *)
+        incr step; incr stats_steps;
+        let resp = split (rdo1 ()) in
+        let rec rd acc = (match rdo1 () with "endst" -> List.rev acc | l -> rd (l :: acc)) in
+        let raw = rd [] in
+        (try
+          let sts = List.map parse_gst raw in
+          let getg id = (try Hashtbl.find gpool id with Not_found -> raise (Syntax "unknown grid object")) in
+          let kname = (match toks with c0 :: _ :: o :: _ -> c0 ^ ":" ^ o | c0 :: _ -> c0 | [] -> "?") in
+          bump ("grid-" ^ kname);
+          (match resp with
+           | ("res" | "ans") :: "exn" :: cls :: _ -> report (kname ^ "/exception") line (Fail ("unexpected exception " ^ cls))
+           | _ ->
+             (match toks with
+              | "qry" :: ids :: q :: rest ->
+                let (dim, xs) = getg (int_of_string ids) in
+                let ans = (match resp with [ "ans"; "b"; v ] -> v = "1" | _ -> raise (Syntax "expected ans b")) in
+                let judge_cover what (target : gdj list) (cover : gdj list) =
+                  if ans then (match gwitness dim target cover with
+                    | Some p -> report (kname ^ "/" ^ what) line (Fail (ptag dim target cover ^ "answered true, but the point " ^ gstr p ^ " of the target lies outside every disjunct of the cover"))
+                    | None -> report (kname ^ "/" ^ what) line Ok)
+                  else (if gincl_disjunctwise dim target cover then report (kname ^ "/" ^ what) line (Fail "answered false, but every target disjunct is included in a disjunct of the cover")
+                        else report (kname ^ "/" ^ what) line Ok) in
+                (match q with
+                 | "geometrically_covers" -> let (_, ys) = getg (int_of_string (List.hd rest)) in judge_cover "covers" ys xs
+                 | "check_containment" -> let c = { t = rest } in
+                     let g = (match next c with "cgs" -> { gempty = false; gcgs = read_pcgs c dim } | "empty" -> { gempty = true; gcgs = [] } | _ -> { gempty = false; gcgs = [] }) in
+                     judge_cover "containment" [ g ] xs
+                 | "geometrically_equals" -> let (_, ys) = getg (int_of_string (List.hd rest)) in
+                     if ans then begin
+                       (match gwitness dim ys xs with Some p -> report (kname ^ "/equals") line (Fail (ptag dim ys xs ^ "answered true, but " ^ gstr p ^ " is in the argument only")) | None -> report (kname ^ "/equals") line Ok);
+                       (match gwitness dim xs ys with Some p -> report (kname ^ "/equals") line (Fail (ptag dim xs ys ^ "answered true, but " ^ gstr p ^ " is in the receiver only")) | None -> report (kname ^ "/equals") line Ok)
+                     end else if gincl_disjunctwise dim xs ys && gincl_disjunctwise dim ys xs then report (kname ^ "/equals") line (Fail "answered false, but each side is included disjunct-wise in the other")
+                     else report (kname ^ "/equals") line Ok
+                 | "contains" -> let (_, ys) = getg (int_of_string (List.hd rest)) in
+                     if ans then (match gwitness dim ys xs with Some p -> report (kname ^ "/contains") line (Fail ("answered true, but " ^ gstr p ^ " of the argument is outside")) | None -> report (kname ^ "/contains") line Ok)
+                 | "is_disjoint_from" -> let (_, ys) = getg (int_of_string (List.hd rest)) in
+                     if ans then (match List.find_opt (fun p -> gcovered ys p) (List.concat_map (grid_samples dim) xs) with
+                       | Some p -> report (kname ^ "/disjoint") line (Fail ("answered disjoint, common point " ^ gstr p)) | None -> report (kname ^ "/disjoint") line Ok)
+                 | _ -> ())
+              | "op" :: ids :: "difference_assign" :: y :: _ ->
+                let id = int_of_string ids in
+                let (dim, x0) = getg id in let (_, y0) = getg (int_of_string y) in
+                (match List.find_opt (fun (i, _, _, _) -> i = id) sts with
+                 | Some (_, _, _, r) ->
+                   (match List.find_opt (fun p -> not (gcovered y0 p) && not (gcovered r p)) (List.concat_map (grid_samples dim) x0) with
+                    | Some p -> report (kname ^ "/lost") line (Fail (ptag dim x0 y0 ^ "the point " ^ gstr p ^ " of x minus y is not in the result"))
+                    | None -> report (kname ^ "/lost") line Ok);
+                   (match gwitness dim r x0 with
+                    | Some p -> report (kname ^ "/gained") line (Fail ("the point " ^ gstr p ^ " of the result is not in x")) | None -> report (kname ^ "/gained") line Ok)
+                 | None -> ())
+              | "op" :: ids :: "omega_reduce" :: _ | "op" :: ids :: "pairwise_reduce" :: _ ->
+                let id = int_of_string ids in let (dim, x0) = getg id in
+                (match List.find_opt (fun (i, _, _, _) -> i = id) sts with
+                 | Some (_, _, _, r) ->
+                   (match gwitness dim x0 r with Some p -> report (kname ^ "/union") line (Fail ("the point " ^ gstr p ^ " was lost")) | None -> report (kname ^ "/union") line Ok);
+                   (match gwitness dim r x0 with Some p -> report (kname ^ "/union") line (Fail ("the point " ^ gstr p ^ " was added")) | None -> report (kname ^ "/union") line Ok)
+                 | None -> ())
+              | _ -> ()));
+          List.iter (fun (id, dim, ok, djs) ->
+            if not ok then report (kname ^ "/OK") (line ^ " @obj " ^ string_of_int id) (Fail "OK() returned false");
+            Hashtbl.replace gpool id (dim, djs)) sts
+        with Syntax m | Failure m -> report "grid/judge-syntax" line (Fail m))
+      end else begin
       if !case_timeouts >= 3 && not !dead then begin dead := true; bump "case-abandoned-after-3-timeouts" end;
       (match toks with
        | [] -> ()
        | t :: _ when t.[0] = '#' -> ()
        | "case" :: id :: tp :: _ -> case := id; topo := tp; step := 0; dead := false; Hashtbl.reset pool; incr stats_cases;
-           cow_hist := []; cow_n := 0; case_timeouts := 0; Hashtbl.reset raw_lines; Hashtbl.reset last_line; tainted := false; ignore (rdo ())
+           cow_hist := []; cow_n := 0; case_timeouts := 0; Hashtbl.reset raw_lines; Hashtbl.reset last_line; Hashtbl.reset gpool; tainted := false; ignore (rdo ())
        | "end" :: _ -> ignore (rdo ())
        | "cw" :: rest ->
            incr step; incr stats_steps;
@@ -599,6 +738,7 @@ let () =
                 with Skip _ -> bump ("unmodelled:" ^ qn); List.iter resync sts))
            end
        | _ -> raise (Syntax ("unknown case line: " ^ line)))
+      end
     done
   with End_of_file -> ());
   Printf.printf "STAT steps %d checks %d undecided %d cases %d timeouts %d\n" !stats_steps !stats_checks !stats_undecided !stats_cases !timeouts;
